@@ -6,6 +6,7 @@ package dynamicresources
 import (
 	"context"
 	"fmt"
+	"sync"
 	"time"
 
 	"google.golang.org/grpc/status"
@@ -17,6 +18,7 @@ import (
 	ksf "k8s.io/kube-scheduler/framework"
 	k8sframework "k8s.io/kubernetes/pkg/scheduler/framework"
 	k8splfeature "k8s.io/kubernetes/pkg/scheduler/framework/plugins/feature"
+	"sigs.k8s.io/controller-runtime/pkg/client"
 	"sigs.k8s.io/controller-runtime/pkg/log"
 
 	"github.com/NVIDIA/KAI-scheduler/pkg/apis/scheduling/v1alpha2"
@@ -27,6 +29,10 @@ import (
 type dynamicResourcesPlugin struct {
 	client      clientset.Interface
 	bindTimeout int64
+
+	// claims whose allocation was written by an in-flight Bind of this plugin, keyed by pod UID and claim name,
+	// so that UnAllocate clears only what the failed attempt itself allocated
+	allocatedByBind sync.Map
 }
 
 func NewDynamicResourcesPlugin(
@@ -67,11 +73,46 @@ func (drp *dynamicResourcesPlugin) Allocate(
 	return nil
 }
 
-// UnAllocate cleans up Resource Claim allocation
+// UnAllocate cleans up Resource Claim allocation: it removes the pod's reservation from its claims and, when no
+// other consumer is left, the allocation that the failed bind attempt wrote
 func (drp *dynamicResourcesPlugin) UnAllocate(
-	_ context.Context, _ *corev1.Pod, _ string, _ ksf.CycleState,
+	ctx context.Context, pod *corev1.Pod, _ string, _ ksf.CycleState,
 ) {
-	return
+	logger := log.FromContext(ctx)
+	for _, podClaim := range pod.Spec.ResourceClaims {
+		claimName, err := resources.GetResourceClaimName(pod, &podClaim)
+		if err != nil || claimName == "" {
+			continue
+		}
+		_, allocatedHere := drp.allocatedByBind.LoadAndDelete(allocationKey(pod, claimName))
+
+		err = retry.RetryOnConflict(retry.DefaultRetry, func() error {
+			originalClaim, err := drp.client.ResourceV1().ResourceClaims(pod.Namespace).Get(ctx, claimName, v1.GetOptions{})
+			if err != nil {
+				return client.IgnoreNotFound(err)
+			}
+			claim := originalClaim.DeepCopy()
+
+			resources.RemoveReservedFor(claim, pod)
+			if len(claim.Status.ReservedFor) == len(originalClaim.Status.ReservedFor) {
+				return nil
+			}
+			if allocatedHere && len(claim.Status.ReservedFor) == 0 {
+				claim.Status.Allocation = nil
+			}
+
+			_, err = drp.client.ResourceV1().ResourceClaims(pod.Namespace).UpdateStatus(ctx, claim, v1.UpdateOptions{})
+			return err
+		})
+		if err != nil {
+			logger.Error(err, "failed to remove the reservation of a resource claim",
+				"claim", claimName, "namespace", pod.Namespace, "name", pod.Name)
+		}
+	}
+}
+
+func allocationKey(pod *corev1.Pod, claimName string) string {
+	return string(pod.UID) + "/" + claimName
 }
 
 // Bind binds Resource Claims to the task according to the allocation status from the bind request
@@ -113,6 +154,7 @@ func (drp *dynamicResourcesPlugin) bindResourceClaim(ctx context.Context, desire
 		resources.UpsertReservedFor(claim, pod)
 		if claim.Status.Allocation == nil {
 			claim.Status.Allocation = desiredStatus.Allocation
+			drp.allocatedByBind.Store(allocationKey(pod, claimName), struct{}{})
 		}
 
 		_, err = drp.client.ResourceV1().ResourceClaims(pod.Namespace).UpdateStatus(ctx, claim, v1.UpdateOptions{})
@@ -150,8 +192,13 @@ func getClaimName(pod *corev1.Pod, podClaimName string) (string, error) {
 
 // PostBind is called after binding is done to clean up
 func (drp *dynamicResourcesPlugin) PostBind(
-	ctx context.Context, _ *corev1.Pod, _ string, _ ksf.CycleState,
+	ctx context.Context, pod *corev1.Pod, _ string, _ ksf.CycleState,
 ) {
+	for _, podClaim := range pod.Spec.ResourceClaims {
+		if claimName, err := resources.GetResourceClaimName(pod, &podClaim); err == nil {
+			drp.allocatedByBind.Delete(allocationKey(pod, claimName))
+		}
+	}
 	logger := log.FromContext(ctx)
 	logger.V(1).Info("dynamicResourcesPlugin.PostBind called - noop")
 }
